@@ -267,7 +267,11 @@ PLANS["C12"] = {
     "module": "Engine_Trace",
     "jobs": lambda seed, tier: engine_jobs(seed, "C12", N(tier, 150, 3000), ALL_LOGICS,
                                            [["c0"], ["la"], ["ghost"], ["noinc"], ["picky"], ["c0", "noinc"], ["ccmin0"], ["rf1"]],
-                                           need="learnt", n_atoms=8, n_assert=8, modes=["cnf", "cnf", "random", "cnf", "unsatbiased"]),
+                                           need="learnt", n_atoms=8, n_assert=8, modes=["cnf", "cnf", "random", "cnf", "unsatbiased"]) +
+                               # many related theory atoms inside Boolean structure: conflicts whose analysis and
+                               # minimisation walk through theory-propagated literals
+                               engine_jobs(seed, "C12b", N(tier, 60, 1200), ["QF_UF", "QF_LRA", "QF_IDL", "QF_UF", "QF_UFLRA", "QF_LIA", "QF_RDL"],
+                                           [["c0"], ["c0"], ["noinc"], ["proofs"]], need="learnt", n_atoms=22, ratio=2.6, modes=["cnf"], timeout=10),
     "rule": "every learnt or derived clause (conflict analysis in search / handleUnsat / lookahead, SatELite resolvents and "
             "strengthening, units of split clauses) must be RUP w.r.t. the inputs, theory clauses and earlier learnt clauses; "
             "non-trivial = the run learnt a clause",
